@@ -396,10 +396,19 @@ def write_evidence(mod, tier, base_seed, total, cfg, wall_s, nviol, known_printe
 def _mutant_child(args):
     modname, name, tier, base_seed, runs = args
     import importlib
+    faulthandler.enable()
+    faulthandler.dump_traceback_later(300, exit=True)
     mod = importlib.import_module(modname)
     cfg = mod.SIM_CFG(tier) if hasattr(mod, "SIM_CFG") else {}
     undo = mod.MUTANTS[name]()
     enum_items = mod.ENUM(tier) if hasattr(mod, "ENUM") else []
+    known = load_known_findings(mod.PROPERTY)
+
+    def first_new(res):
+        for sg, _ in res.get("violations") or []:
+            if sg not in known:
+                return sg
+        return None
     try:
         t_end = time.time() + getattr(mod, 'MUTANT_WALL', 40)
         n = 0
@@ -411,8 +420,8 @@ def _mutant_child(args):
             except BaseException as e:
                 return (name, True, n, "harness-exception:%s" % type(e).__name__)
             n += 1
-            if res.get("violations"):
-                return (name, True, n, res["violations"][0][0])
+            if first_new(res):
+                return (name, True, n, first_new(res))
             if time.time() > t_end:
                 break
         for i in range(runs):
@@ -422,8 +431,8 @@ def _mutant_child(args):
             except BaseException as e:
                 return (name, True, n, "harness-exception:%s" % type(e).__name__)
             n += 1
-            if res.get("violations"):
-                return (name, True, n, res["violations"][0][0])
+            if first_new(res):
+                return (name, True, n, first_new(res))
             if time.time() > t_end:
                 break
         return (name, False, n, None)
